@@ -85,6 +85,15 @@ def direct_steps(first, *later):
     return e
 
 
+def direct_rejected(first, bad, *later):
+    """a dated calendar that was offered a definition with a negative value in a later set_units() call: the call
+    is refused with RuntimeError and the calendar keeps what it had (the refused group leaves no trace)"""
+    e = direct_steps(first, *later)
+    e["bad"] = [[d, u] for d, u in bad.items()]
+    e["badat"] = len(first)
+    return e
+
+
 def func(name, c):
     """calendar.apply(f) with one of the named functions of FUNCS (they accept None)"""
     return {"k": "func", "fn": name, "c": c}
@@ -132,6 +141,9 @@ VALID_LEAVES = [
     func("half", weekly_list([0, 2, 4], q(1, 2), S1, E1)),
     func("orzero", direct({1: q(8), 2: q(0), 4: q(3)})),
     func("plus1", fixed(q(2), S1, E1)),
+    # valid entries listed BEFORE the negative one must not get through either
+    direct_rejected({1: q(8), 4: q(6)}, {1: q(0), 2: q(5), 3: q(-1)}),
+    direct_rejected({}, {2: q(5), 3: q(-1, 2)}, {2: q(1)}),
 ]
 INVALID_LEAVES = [
     direct_steps({1: q(8)}, {2: q(-1)}),
@@ -171,11 +183,15 @@ def build(e):
         items = [(inst(d * DAY + (540 if i % 2 else 0), 250000 if i % 3 == 0 else 0), num(u))
                  for i, (d, u) in enumerate(zip(e["days"], e["us"]))]
         cuts = [0] + list(e.get("cut") or []) + [len(items)]
-        if len(cuts) == 2:
+        if len(cuts) == 2 and not e.get("bad"):
             return pj.DirectCalendar(dict(items))
         cal = pj.DirectCalendar(dict(items[:cuts[1]])) if cuts[1] else pj.DirectCalendar()
         for a, b in zip(cuts[1:], cuts[2:]):
+            if e.get("bad") and a == e["badat"]:
+                refuse(cal, e["bad"])
             cal.set_units(dict(items[a:b]))
+        if e.get("bad") and e["badat"] >= len(items):
+            refuse(cal, e["bad"])
         return cal
     if k == "func":
         return build(e["c"]).apply(FUNCS[e["fn"]])
@@ -195,6 +211,20 @@ def build(e):
     if o == "/":
         return l / r
     return l | r
+
+
+class NotRefused(Exception):
+    pass
+
+
+def refuse(cal, bad):
+    """offer the invalid group; it must be refused with RuntimeError (anything else is reported as the outcome of
+    building the expression)"""
+    try:
+        cal.set_units({inst(d * DAY + 540): num(u) for d, u in bad})
+    except RuntimeError:
+        return
+    raise NotRefused()
 
 
 def bounds(e, acc):
@@ -266,6 +296,21 @@ def observe(eid, e, rng, window=21, light=False):
                 derived.get_available_units(inst(DAY))
             except Exception:
                 pass
+    except Exception:
+        pass
+    # what the accessors hand out (the week table, the list of dates) belongs to the caller: editing it must not
+    # edit the calendar
+    try:
+        if hasattr(cal, "get_week_day_hours"):
+            h = cal.get_week_day_hours()
+            for k in list(h):
+                h[k] = 99
+            h.clear()
+        if hasattr(cal, "dates"):
+            ds = cal.dates
+            if isinstance(ds, list):
+                ds.clear()
+                ds.append(inst(DAY))
     except Exception:
         pass
     for t, micro in probes[::5][:8]:
